@@ -1,4 +1,5 @@
 import Driver.Util
 import Driver.SemDrv
 import Driver.SchedDrv
+import Driver.JoinDrv
 import Driver.Main
